@@ -1187,6 +1187,8 @@ pub fn derive_ex_derive(input: proc_macro::TokenStream) -> proc_macro::TokenStre
 
 fn build(attr: TokenStream, item: TokenStream) -> Result<TokenStream> {
     let mut item: Item = parse2(item)?;
+    // Also for the item that is emitted again: the groups would be lost there as well.
+    syn::visit_mut::VisitMut::visit_item_mut(&mut syn_utils::ResolveGroups, &mut item);
     let ts = match &mut item {
         Item::Struct(item_struct) => item_type::build_by_item_struct(attr, item_struct),
         Item::Enum(item_enum) => item_type::build_by_item_enum(attr, item_enum),
